@@ -108,6 +108,21 @@ def check_loop(ctx, key):
     ctx.ob('R10.2-delivery', key, not v2 and queued > 0, sl.where,
            'queue step: get_next_reactions, then state += amount[r]*delayed column r, then one advance_time, at the queue time',
            fmt(v2) or '%d queue-step paths' % queued)
+    # pending deliveries are part of the future of the system: the loop may only end by running out of time points (division aside), and
+    # result rows are written by the one recording loop - never "filled in" on the assumption that a state without propensity is final
+    v3 = []
+    for p in pths:
+        if p.exit in ('break', 'return'):
+            tests = [util.canon_test(e.node) for e in p.events if e.kind == 'test' and e.info]
+            if not any('cell_divided' in t or 'divided' in t for t in tests):
+                v3.append((p, 'the loop is left early (%s)' % p.exit))
+    rec_stores = [n for n in ast.walk(sl.loop) if isinstance(n, ast.Assign) and isinstance(n.targets[0], ast.Subscript)
+                  and src(n.targets[0].value) == 'c_results']
+    if len(rec_stores) != 1:
+        v3.append((pths[0], 'result rows are written at %d places in the loop' % len(rec_stores)))
+    ctx.ob('R10.2-no-early-exit', key, not v3, sl.where,
+           'with deliveries possibly pending, the delay loop ends only when the time grid is exhausted (or the cell divides); rows are written by the recording loop only',
+           fmt(v3))
     # the queue time compared is read from the queue in this iteration
     reads = [n for n in ast.walk(sl.loop) if isinstance(n, ast.Assign) and 'get_next_queue_time' in src(n.value)]
     ctx.ob('R10.2-queue-time', key, len(reads) == 1 and src(reads[0].value) == 'q.get_next_queue_time()', sl.where,
@@ -134,7 +149,9 @@ def check_delay_classes(ctx):
             problems.append('get_delay has %d returns' % len(rets))
         else:
             pa = f.args.args[2].arg
-            v = rets[0].value
+            # locals defined once in the body (`cdef double mean = params[self.mean_index]`) are read through
+            ldefs = {n_: v_ for n_, v_ in util.single_defs(f).items() if v_ is not None}
+            v = util.inline(rets[0].value, ldefs)
             want_args = ['%s[self.%s]' % (pa, roles[k]) for k in keys]
             if calls[cls] is None:
                 if src(v) != want_args[0]:
@@ -206,10 +223,17 @@ def check_samplers(ctx):
         problems.append('%s uniform draws per trial, expected 1' % se.fresh_count.get('uniform_rv'))
     X, U = sp.Symbol('normal_rv#1', positive=True), sp.Symbol('uniform_rv#1', positive=True)
     X = sp.Symbol('normal_rv#1', positive=True)
-    if len(cases) != 1 or len(cases[0].conds) != 1:
+    if len(cases) != 1 or not cases[0].conds:
         problems.append('expected one accepting return inside the loop')
     else:
         c = cases[0]
+        # `if a and b:` and `if a: if b:` are the same acceptance test: collect the conjuncts of everything that holds at the return
+        conj = []
+        all_true = True
+        for cd, tr in c.conds:
+            all_true = all_true and tr
+            conj += list(cd.args) if isinstance(cd, sp.And) else [cd]
+        c = symx.Case([(sp.And(*conj, evaluate=False) if len(conj) > 1 else conj[0], all_true)], c.value, c.node)
         d = k - sp.Rational(1, 3)
         vv = (1 + X / sp.sqrt(9 * d)) ** 3
         eq, wit = symx.equal(c.value, d * vv * theta)
